@@ -101,6 +101,15 @@ impl FramebufferTag {
 //@            &&& slice_addr(p) == slice_addr(&self.buffer) + 2
 //@            &&& slice_prov(p) == ref_prov(self)
 //@            &&& 2 + p@.len() * 3 <= self.buffer@.len()
+//@            // C04: the palette has exactly the stored number of colours (little-endian u16 at offset 0 of the colour info)
+//@            &&& p@.len() == (((self.buffer@[1] as u16) << 8) | (self.buffer@[0] as u16))
+//@        }),
+//@        // C04: the RGB field descriptions are the six stored bytes, in the specified order
+//@        (r is Ok && r->Ok_0 is RGB) ==> ({
+//@            let t = r->Ok_0;
+//@            &&& t->red.position == self.buffer@[0] && t->red.size == self.buffer@[1]
+//@            &&& t->green.position == self.buffer@[2] && t->green.size == self.buffer@[3]
+//@            &&& t->blue.position == self.buffer@[4] && t->blue.size == self.buffer@[5]
 //@        }),
 //@end
 }
